@@ -19,6 +19,16 @@ impl<'a> Assembler<'a> {
         value: <IT as BitValue>::ValueType,
         len: usize,
     ) -> Result<(), RtcmError> {
+        #[cfg(all(rtcm_rs_verif, feature = "std"))]
+        crate::verif::sink::record(
+            "put",
+            core::any::type_name::<IT>(),
+            len,
+            self.offset,
+            self.data.len() * 8,
+            self.data.len() * 8 >= self.offset + len,
+            Some(&value),
+        );
         if self.data.len() * 8 < self.offset + len {
             Err(RtcmError::BufferOverflow)
         } else {
